@@ -21,6 +21,9 @@ Qed.
 Lemma readable_retry d rs : readable ({| r_data := d; r_end := rkind_of_error true true |} :: rs) = d ++ readable rs.
 Proof. reflexivity. Qed.
 
+Lemma fabricated_eof_loses_bytes : exists d rs, readable ({| r_data := d; r_end := RFatal |} :: rs) <> d ++ readable rs.
+Proof. exists [1%N], [{| r_data := [2%N]; r_end := RNone |}]. cbn. discriminate. Qed.
+
 Section K.
   Variable v : variant.
   Variable threshold : N.
